@@ -5,7 +5,7 @@ import ast
 
 from sa.cfg import CFG, edges_establishing
 from sa.effects import Effects
-from sa.model import Program, norm, walk_no_nested
+from sa.model import Program, alpha, norm, walk_no_nested
 from sa.report import Results
 from sa.tables.reviewed import Reviewed
 from sa.util import callee, dotted
@@ -24,7 +24,9 @@ def run(prog: Program) -> Results:
     for f in (getter, setter):
         cs = [c for c in walk_no_nested(f.node) if isinstance(c, ast.Call) and callee(c) == "_resolve_identifier"]
         r1.instances += 1
-        ok = len(cs) == 1 and [norm(a) for a in cs[0].args] == ["self", "context.scopes"] and not cs[0].keywords
+        cvar = next((norm(d.targets[0]) for d in ast.walk(f.node) if isinstance(d, ast.Assign) and isinstance(d.value, ast.Call)
+                     and callee(d.value) == "get_resolution_context" and [norm(a) for a in d.value.args] == ["self"]), None)
+        ok = len(cs) == 1 and cvar is not None and [norm(a) for a in cs[0].args] == ["self", f"{cvar}.scopes"] and not cs[0].keywords
         calls[f.key] = cs
         r1.ob(ok, {"function": f.key, "resolver_call": norm(cs[0]) if cs else None})
         if not ok:
@@ -56,9 +58,9 @@ def run(prog: Program) -> Results:
         res.add("R-C11-1", (setter.key, "extra document write"), setter.loc(),
                 f"the setter writes document state other than the defining binding's value: {[m.text for m in direct]}")
     # trivia of the old value is kept: before/after taken from binding.value when the new expression has none
-    txt = norm(setter.node)
+    txt = alpha(setter.node, setter.node, anonymous=True)
     r1.instances += 1
-    ok = "binding.value.before if not new_expr.before else new_expr.before" in txt and "binding.value.after if not new_expr.after else new_expr.after" in txt
+    ok = "$.value.before if not $.before else $.before" in txt and "$.value.after if not $.after else $.after" in txt
     r1.ob(ok, {"trivia_kept": ok})
     if not ok:
         res.unclass("Identifier.value setter: the trivia-preserving copy was not recognised")
@@ -72,7 +74,7 @@ def run(prog: Program) -> Results:
         res.analysed_functions.add(key)
         cfg = CFG(f.node)
         params = set(f.params())
-        value_param = "value_expr"
+        value_param = next((p for p in f.params() if "value" in p), "value_expr")
         overwrites = []
         for n in cfg.nodes:
             a = n.ast
@@ -82,8 +84,10 @@ def run(prog: Program) -> Results:
         for n, b in overwrites:
             # classify how b was located: by path (attrset lookups) vs fallback targets (outer/sibling found by *name of the reference*)
             located_by = [d for d in ast.walk(f.node) if isinstance(d, ast.Assign) and any(isinstance(t, ast.Name) and t.id == b for t in d.targets)]
-            fallback_target = b in ("outer", "sibling_binding") or any(
-                isinstance(d.value, ast.Call) and callee(d.value) == "_find_binding" and len(d.value.args) > 1 and norm(d.value.args[1]) == "target_name"
+            ref_names = {norm(d.targets[0]) for d in ast.walk(f.node) if isinstance(d, ast.Assign) and isinstance(d.targets[0], ast.Name)
+                         and isinstance(d.value, ast.Attribute) and d.value.attr == "name" and norm(d.value.value).endswith(".value")}
+            fallback_target = any(
+                isinstance(d.value, ast.Call) and callee(d.value) == "_find_binding" and len(d.value.args) > 1 and norm(d.value.args[1]) in ref_names
                 for d in located_by)
             is_loop_var = any(isinstance(l, ast.For) and norm(l.target) == b for l in ast.walk(f.node))
             if fallback_target or is_loop_var:
@@ -101,7 +105,8 @@ def run(prog: Program) -> Results:
             ok = bool(e_not) and bool(attempts) and cfg.all_paths_pass(n, cut_edges=e_not, cut_nodes=attempts)
             r2.ob(ok, {"site": key, "overwrite": norm(n.ast), "assign_through_attempt": [norm(t.ast)[:60] for t in attempts]})
             if not ok:
-                res.add("R-C11-2", (key, "overwrite without assign-through", norm(n.ast)), f.loc(n.ast),
+                how = sorted({callee(d.value) for d in located_by if isinstance(d.value, ast.Call)}) or ["loop/param"]
+                res.add("R-C11-2", (key, "overwrite without assign-through", "located by " + ",".join(str(h) for h in how)), f.loc(n.ast),
                         f"{key}: `{norm(n.ast)}` overwrites a binding located by path without first trying to assign through when its "
                         f"value is a reference: `set a.b 2` on `let v = 1; in {{ a.b = v; }}` replaces the reference instead of updating `v`")
         if key == "_set_value_in_attrset":
@@ -115,13 +120,17 @@ def run(prog: Program) -> Results:
                     roots = [n.ast.iter] if n.kind == "for" else ([n.ast] if n.kind != "with" else [])
                     for r_ in roots:
                         for c in ast.walk(r_):
-                            if isinstance(c, ast.Call) and callee(c) == "_find_binding" and len(c.args) > 1 and norm(c.args[1]) in ("target_name", "identifier.name"):
+                            if isinstance(c, ast.Call) and callee(c) == "_find_binding" and len(c.args) > 1 and (
+                                    norm(c.args[1]).endswith(".name") or any(
+                                        isinstance(d, ast.Assign) and norm(d.targets[0]) == norm(c.args[1]) and isinstance(d.value, ast.Attribute) and d.value.attr == "name"
+                                        for d in ast.walk(g.node))):
                                 sib.append(n)
                             if isinstance(c, ast.Attribute) and c.attr == "values" and n.kind in ("for", "stmt") and g is not f \
-                                    and "let_bindings" in norm(g.node):
+                                    and next((p for p in f.params() if "let" in p), "let_bindings") in norm(g.node):
                                 sib.append(n)
+                lb = next((p for p in f.params() if "let" in p), "let_bindings")
                 lets = [n for n in gcfg.nodes if n.ast is not None and n.kind in ("test", "for", "stmt") and
-                        "let_bindings" in norm(n.ast.iter if n.kind == "for" else n.ast) and n not in sib]
+                        lb in norm(n.ast.iter if n.kind == "for" else n.ast) and n not in sib]
                 for sn in dict.fromkeys(sib):
                     r2.instances += 1
                     ok = bool(lets) and gcfg.all_paths_pass(sn, cut_nodes=lets)
